@@ -1,9 +1,14 @@
 (* Validator driver: one stratum skeleton (S-expression, see coq/theories/SemiNaiveRam.v and
    harness/ramparse.py) per input line -> "ok" | "reject <reason>" | "parse-error <what>".
    (stratum (scc R..) (preamble R..) (exit R..) (limits (R n)..) (update (R merge swap clear)..)
+            [(nullary R..)]
             (clause C (version (scans (T R K)..) (eqs (X Y)..) (negs (R K (X..))..) (others N)
-                               (insert R K (X..)))..)..)
+                               (insert R K (X..))
+                               [(tests (R K)..)] [(empties (R K)..)] [(breaks (R K)..)])..)..)
    X ::= (e T I) | (k N);  K ::= 0 main | 1 @delta | 2 @new.
+   The parts in [ ] may be left out (= empty): (nullary ..) the relations whose copy statements have the
+   form for arity 0; (tests ..) IF (NOT ISEMPTY(rel)) of atoms without a scan; (empties ..) IF ISEMPTY(rel);
+   (breaks ..) IF (NOT ISEMPTY(rel)) BREAK.
    The decision is taken by the extracted [stratum_check]; this file only parses and prints. *)
 open Snram_model
 open Common_io
@@ -60,12 +65,23 @@ let eq_of_sx = function
 let neg_of_sx = function
   | L [r; k; L args] -> { n_rel = num_of_sx r; n_kind = kind_of_sx k; n_args = List.map elem_of_sx args }
   | _ -> failwith "neg"
+let test_of_sx = function
+  | L [r; k] -> { e_rel = num_of_sx r; e_kind = kind_of_sx k }
+  | _ -> failwith "test"
+(* the optional sections, in the order tests, empties, breaks *)
+let opt_section name rest = match rest with
+  | L (A a :: items) :: rest' when a = name -> (List.map test_of_sx items, rest')
+  | _ -> ([], rest)
 let version_of_sx = function
-  | L [A "version"; L (A "scans" :: scans); L (A "eqs" :: eqs); L (A "negs" :: negs);
-       L [A "others"; n]; L [A "insert"; r; k; L args]] ->
+  | L (A "version" :: L (A "scans" :: scans) :: L (A "eqs" :: eqs) :: L (A "negs" :: negs)
+       :: L [A "others"; n] :: L [A "insert"; r; k; L args] :: rest) ->
+    let (tests, rest) = opt_section "tests" rest in
+    let (empties, rest) = opt_section "empties" rest in
+    let (breaks, rest) = opt_section "breaks" rest in
+    if rest <> [] then failwith "version";
     { v_scans = List.map scan_of_sx scans; v_eqs = List.map eq_of_sx eqs; v_negs = List.map neg_of_sx negs;
       v_others = num_of_sx n; v_ins_rel = num_of_sx r; v_ins_kind = kind_of_sx k;
-      v_ins_args = List.map elem_of_sx args }
+      v_ins_args = List.map elem_of_sx args; v_tests = tests; v_empties = empties; v_breaks = breaks }
   | _ -> failwith "version"
 let clause_of_sx = function
   | L (A "clause" :: c :: versions) -> { c_id = num_of_sx c; c_versions = List.map version_of_sx versions }
@@ -78,10 +94,13 @@ let update_of_sx = function
   | _ -> failwith "update"
 let stratum_of_sx = function
   | L (A "stratum" :: L (A "scc" :: scc) :: L (A "preamble" :: pre) :: L (A "exit" :: ex)
-       :: L (A "limits" :: lims) :: L (A "update" :: upd) :: clauses) ->
+       :: L (A "limits" :: lims) :: L (A "update" :: upd) :: rest) ->
+    let (nul, clauses) = match rest with
+      | L (A "nullary" :: nul) :: clauses -> (List.map num_of_sx nul, clauses)
+      | _ -> ([], rest) in
     { st_scc = List.map num_of_sx scc; st_preamble = List.map num_of_sx pre; st_exit = List.map num_of_sx ex;
       st_limits = List.map limit_of_sx lims; st_update = List.map update_of_sx upd;
-      st_clauses = List.map clause_of_sx clauses }
+      st_clauses = List.map clause_of_sx clauses; st_nullary = nul }
   | _ -> failwith "stratum"
 
 let sn x = BZ.to_string (z_of_n x)
@@ -99,12 +118,14 @@ let show_reason = function
   | RFrame (w, r) ->
     "frame " ^ (match w with
                 | FPreamble -> "preamble" | FExit -> "exit" | FUpdateSet -> "update-set"
-                | FUpdateDup -> "update-dup" | FUpdateFlags -> "update-flags" | FLimits -> "limits")
+                | FUpdateDup -> "update-dup" | FUpdateFlags -> "update-flags" | FLimits -> "limits"
+                | FNullary -> "nullary")
     ^ " " ^ sn r
   | RUnsupported (w, c, v) ->
     "unsupported " ^ (match w with
                       | UScanKind -> "scan-kind" | UNullary -> "nullary" | UNegKind -> "neg-kind"
-                      | USccNegation -> "scc-negation")
+                      | USccNegation -> "scc-negation" | UTestKind -> "test-kind" | UEmptyKind -> "empty-kind"
+                      | UBreak -> "break" | UWide -> "isempty-delta-of-wide-relation")
     ^ " " ^ cv c v
 
 let () = read_lines (fun line ->
